@@ -74,7 +74,7 @@ func (f *parserFlow) resolveCalls() {
 					a := site.Common().Args[idx]
 					switch v := a.(type) {
 					case *ssa.MakeClosure:
-						out = append(out, v.Fn.(*ssa.Function))
+						out = append(out, unwrapThunk(v.Fn.(*ssa.Function)))
 					case *ssa.Function:
 						out = append(out, v)
 					default:
